@@ -640,6 +640,48 @@ def _ws_close(eng, st, recv, args, kwargs, line):
     yield s2, VNONE
 
 
+def _ws_recv(eng, st, recv, args, kwargs, line):
+    """websocket-client's WebSocket.recv(): next frame as str or bytes ('' after a close), or one
+    of the library's exceptions (time-out, connection closed, OS error, anything else)."""
+    s2 = st.copy()
+    advance_clock(eng, s2, None)
+    d = z3.Const(eng.name('frame'), PV)
+    eng.inputs[str(d)] = d
+    s2.pc.append(z3.Or(PV.is_ps(d), PV.is_py(d)))
+    others = [s2.copy() for _ in range(4)]
+    _ws_log(eng, s2, False, d)
+    yield s2, V(ANY, d)
+    for s3, exc in zip(others, ('WebSocketTimeoutException', 'WebSocketConnectionClosedException',
+                                'OSError', 'AnyException')):
+        yield s3, R(exc, line)
+
+
+def _ws_receive(eng, st, recv, args, kwargs, line):
+    """aiohttp ClientWebSocketResponse.receive(): a coroutine giving the next message object
+    (attributes .data / .type), or raising (time-out under wait_for, server disconnected, other)."""
+    def run(eng2, st2, timeout, line2):
+        s2 = st2.copy()
+        advance_clock(eng2, s2, timeout)
+        m = z3.Int(eng2.name('ws_msg'))
+        s2.pc.append(m >= 1)
+        others = [s2.copy() for _ in range(3)]
+        d = ws_msg_data(m)
+        _ws_log(eng2, s2, False, d)
+        yield s2, V(Opaque('WSMsg'), m)
+        excs = ['ServerDisconnectedError', 'AnyException'] + (
+            ['TimeoutError'] if timeout is not None else [])
+        for s3, exc in zip(others, excs):
+            yield s3, R(exc, line2)
+    yield st, V(FN, ('corolib', run))
+
+
+ws_msg_data = z3.Function('ws_msg_data', z3.IntSort(), PV)
+LIBM[('opaque:WS', 'receive')] = _ws_receive
+lib.OPAQUE_ATTR[('WSMsg', 'data')] = lambda eng, st, o: V(ANY, ws_msg_data(o.t))
+LIBM[('opaque:WS', 'recv')] = _ws_recv
+lib.OPAQUE_ATTR[('WS', 'connected')] = lambda eng, st, o: vbool(
+    z3.Function('ws_connected', z3.IntSort(), z3.RealSort(), z3.BoolSort())(
+        o.t, st.ghost['now'].t if 'now' in st.ghost else z3.RealVal(0)))
 LIBM[('opaque:WS', 'wait')] = _ws_wait
 LIBM[('opaque:WS', 'send')] = _ws_send
 LIBM[('opaque:WS', 'close')] = _ws_close
